@@ -4,6 +4,9 @@
                      maintenance: SQL INSERT / UPDATE / DELETE and the cached/bulk insert paths.  One obligation per cell.
  X2 DELETE-THEN-INSERT in UPDATE's index maintenance loops the old entry is removed before the new one is inserted.
  X3 UNDO-ORDER        write entries are undone newest-first.
+ X5 FASTPATH-GUARD   a region of UPDATE/DELETE that rewrites the row and returns Ok without reaching index maintenance must be guarded
+                      by a condition that depends on the secondary-index collection (data or control dependence).
+ X6 INDEX-VALUE       the value stored with an index entry never derives from a column value (it is the row key).
  X4 KEY-SUFFIX        every function that builds multi-column index keys outside INSERT consults IndexDef::is_unique (INSERT stores
                       non-unique entries under encode(cols) || row_key, unique ones under encode(cols)).
 Result equality between index scans and table scans is NOT decided.
@@ -25,3 +28,6 @@ def run(ctx):
     dmlrules.index_delete_before_insert(ctx, "X2.DELETE-THEN-INSERT", [dmlrules.ENTRIES["update"]])
     dmlrules.undo_newest_first(ctx, "X3.UNDO-ORDER")
     dmlrules.index_key_suffix_rule(ctx, "X4.KEY-SUFFIX", dmlrules.KEY_SUFFIX_TOLERATED)
+    n5 = dmlrules.fastpath_guard_depends(ctx, "X5.FASTPATH-GUARD")
+    ctx.floor("X5.fast_paths", n5, 1)
+    dmlrules.index_value_is_row_key(ctx, "X6.INDEX-VALUE")
